@@ -201,6 +201,16 @@ func (a *actor) exec(op *Op) *CallRec {
 	case "yield":
 		simrt.Yield("op:yield")
 		return nil
+	case "clock":
+		// wall clock step (NTP correction, VM resume); timers keep following the monotonic clock
+		e.sim.SetWallOffset(e.sim.WallOffset() + time.Duration(op.Ms)*time.Millisecond)
+		if op.Ms >= 0 {
+			e.fault("clock-jump")
+		} else {
+			e.fault("clock-back")
+		}
+		e.logf("[%s] wall clock stepped by %dms", a.t.Name, op.Ms)
+		return nil
 	case "close":
 		return a.call(op, func(c *CallRec) {
 			e.closing = true
